@@ -218,22 +218,37 @@ func createLastInsertIDResult(lastInsertID uint64, asName string) *mysql.Result 
 	return ret
 }
 
-// MentionsShardTable reports whether some word of sql (a maximal run of letters,
-// digits, '_', '$' and non-ASCII characters other than white space), lower-cased, is the name of a table
-// that has a shard rule in any database of the router. The token checks below look
-// at one token per keyword and compare it case-sensitively; a statement for which
-// this function returns true must be analysed by the parser.
+// MentionsShardTable reports whether sql mentions the name of a table that has a
+// shard rule in any database of the router: every word of the table's name is,
+// in any letter case, a word of sql (a word is a maximal run of letters, digits,
+// '_', '$' and non-ASCII characters other than white space). Most names are one
+// word; a name that needs quoting (`order-items`, `my table`) is several, and
+// between back-quotes each of them is a word of the statement. The token checks
+// below look at one token per keyword and compare it case-sensitively; a statement
+// for which this function returns true must be analysed by the parser.
 func MentionsShardTable(sql string, rt *router.Router) bool {
-	rules := rt.GetAllRules()
+	words := make(map[string]struct{})
 	for _, word := range strings.FieldsFunc(sql, isNotIdentifierRune) {
-		word = strings.ToLower(word)
-		for _, tables := range rules {
-			if _, ok := tables[word]; ok {
+		words[strings.ToLower(word)] = struct{}{}
+	}
+	for _, tables := range rt.GetAllRules() {
+		for table := range tables {
+			if isMentioned(table, words) {
 				return true
 			}
 		}
 	}
 	return false
+}
+
+// isMentioned: every word of the (lower-cased) table name is among words.
+func isMentioned(table string, words map[string]struct{}) bool {
+	for _, part := range strings.FieldsFunc(table, isNotIdentifierRune) {
+		if _, ok := words[part]; !ok {
+			return false
+		}
+	}
+	return true
 }
 
 // isNotIdentifierRune: the parser skips every Unicode white space character before a
